@@ -234,6 +234,7 @@ func checkC08(c *Ctx) {
 	c08Release(c)
 	c08CloseAlwaysCloses(c)
 	c08NoLockAcrossWait(c, cfns)
+	c08StopBeforeJoin(c)
 	c08Loops(c, cfns)
 	c08SingleCloser(c, cfns)
 	c08TablePair(c)
@@ -1183,5 +1184,100 @@ func c08NoLockAcrossWait(c *Ctx, cfns []*ssa.Function) {
 	}
 	if n < 5 {
 		c.R.Break("R-wait-has-exit: only %d network waits found in client code", n)
+	}
+}
+
+// c08StopBeforeJoin (R-stop-before-join): a handler that waits for goroutines it started (WaitGroup.Wait) must have told
+// them to stop before it waits — the stop signal being the close of a channel member (directly or through a helper).
+// With the wait and the stop both deferred, the order of registration decides: defers run last-in first-out, so a stop
+// registered BEFORE the wait runs AFTER it, and the handler (with its goroutines and its session) is stuck until some
+// other signal arrives.
+func c08StopBeforeJoin(c *Ctx) {
+	closesField := func(call ssa.CallInstruction, d int) bool { return false }
+	closesField = func(call ssa.CallInstruction, d int) bool {
+		if ir.CallName(call) == "builtin.close" {
+			_, _, ok := ir.LoadedField(call.Common().Args[0])
+			return ok
+		}
+		if d >= 2 {
+			return false
+		}
+		var callee *ssa.Function
+		if mc, ok := call.Common().Value.(*ssa.MakeClosure); ok {
+			callee, _ = mc.Fn.(*ssa.Function)
+		} else {
+			callee = ir.StaticCallee(call)
+		}
+		if callee == nil || !c.P.IsLib(callee) {
+			return false
+		}
+		found := false
+		ir.EachCall(callee, func(ic ssa.CallInstruction) {
+			if _, isGo := ic.(*ssa.Go); !isGo && closesField(ic, d+1) {
+				found = true
+			}
+		})
+		return found
+	}
+	n := 0
+	for _, fn := range c.P.LibFns {
+		var waits []ssa.Instruction
+		startsGo := false
+		ir.EachInstr(fn, func(_ *ssa.BasicBlock, _ int, in ssa.Instruction) {
+			if call, ok := in.(ssa.CallInstruction); ok && ir.CallName(call) == "(*sync.WaitGroup).Wait" {
+				waits = append(waits, in)
+			}
+			if _, ok := in.(*ssa.Go); ok {
+				startsGo = true
+			}
+		})
+		if len(waits) == 0 || !startsGo {
+			continue
+		}
+		var stops []ssa.Instruction
+		ir.EachInstr(fn, func(_ *ssa.BasicBlock, _ int, in ssa.Instruction) {
+			if call, ok := in.(ssa.CallInstruction); ok {
+				if _, isGo := in.(*ssa.Go); !isGo && closesField(call, 0) {
+					stops = append(stops, in)
+				}
+			}
+		})
+		if len(stops) == 0 {
+			continue // the goroutines end on something else (a context): not this rule's business
+		}
+		for i, w := range waits {
+			n++
+			ok := false
+			_, wDeferred := w.(*ssa.Defer)
+			for _, s := range stops {
+				_, sDeferred := s.(*ssa.Defer)
+				switch {
+				case !wDeferred && !sDeferred:
+					ok = ok || flow.Dominates(s, w)
+				case wDeferred && sDeferred:
+					ok = ok || flow.Dominates(w, s) // registered after the wait: runs before it
+				case wDeferred && !sDeferred:
+					// an ordinary stop call on every path from the defer statement to the function's exit
+					ok = ok || flow.ExitsAvoiding(fn, w, func(x ssa.Instruction) bool { return x == s }, false) == nil
+				}
+			}
+			if wDeferred && !ok {
+				// several ordinary stops covering the paths between them
+				ok = flow.ExitsAvoiding(fn, w, func(x ssa.Instruction) bool {
+					for _, s := range stops {
+						if _, sDef := s.(*ssa.Defer); !sDef && x == s {
+							return true
+						}
+					}
+					return false
+				}, false) == nil
+			}
+			c.R.Check(ok, "R-stop-before-join", sprintf("wait #%d for the goroutines of %s", i+1, fname(fn)), c.Pos(w.Pos()),
+				"the goroutines have been told to stop (channel closed) before they are waited for",
+				sprintf("%s waits for its goroutines before closing the channel that tells them to stop (the stop is deferred earlier than the wait, so it runs later): unless something else ends them, the handler, its goroutines and the session it registered stay for ever", fname(fn)))
+		}
+	}
+	if n == 0 {
+		c.R.Hold("R-stop-before-join", "no function both stops (by closing a channel) and joins goroutines", "", "")
 	}
 }
